@@ -1,7 +1,7 @@
 //@ assume: the validators are verified as CONJUNCTIONS OF CHECKS: every callee (weight, NRD-duplicate, sorting, cut-through, feature, range-proof batch, signature batch, lock-height, coinbase and kernel-sum checks, overage and offset computations) is an external_body function whose meaning is an uninterpreted predicate/function of its arguments; the contract states which checks run and with which arguments (fee as overage for a transaction, minus the subsidy for a block, the block's own offset = total - previous), not that the callees are right
 //@ assume: the callees that are pure Rust are covered elsewhere where possible (verify_weight: C14, verify_kernel_lock_heights / NRD rule: C13, header overage: C01/scalars); kernel-sum / range-proof / signature verification are libsecp256k1 behind FFI (assumed)
 //@ assume: decided here: Transaction::validate, TransactionBody::validate_read, TransactionBody::verify_features and Block::validate return Ok only if every rule of the property statement was checked with the right operands; the 'after any accepted history' clause (stored sums across reorgs) is a history property outside this family (DESIGN 6 C01)
-//@ assumed_items: 20
+//@ assumed_items: 24
 //@ fns: Transaction::validate, TransactionBody::validate_read, TransactionBody::verify_features, Block::validate
 
 #[verifier::external_body]
@@ -67,7 +67,16 @@ impl TransactionBody {
 //@ end
 }
 
+#[verifier::external_body]
+pub struct TxKernel { _p: u8 }
+#[verifier::external_body]
+pub struct Output { _p: u8 }
 impl Transaction {
+    /// accessors of the real API (abstract element types), offered so that a change that consults them is decided, not undecided
+    #[verifier::external_body]
+    pub fn kernels(&self) -> (r: &[TxKernel]) { unimplemented!() }
+    #[verifier::external_body]
+    pub fn outputs(&self) -> (r: &[Output]) { unimplemented!() }
     #[verifier::external_body]
     pub fn overage(&self) -> (r: i64) ensures r == sp_tx_overage(self.body) { unimplemented!() }
     #[verifier::external_body]
